@@ -148,7 +148,14 @@ func runC11(ctx *h.Ctx) int {
 		lib := h.Compile(src, optsOf(prog, true))
 		dir := workDir(k)
 		defer cleanWork(dir)
-		cli := runCLI(dir, src, prog, true, false)
+		var modes []string
+		if k.R.IntN(2) == 0 {
+			// -cc given twice: the later file is the command config (the earlier one configures the same commands
+			// the other way round and must have no influence)
+			modes = append(modes, "repeated-cc")
+			k.Count("cli_runs_with_repeated_cc", 1)
+		}
+		cli := runCLIFull(dir, src, prog, optsOf(prog, true), k.R.IntN(3) == 0, false, modes...)
 		k.Count("evaluations", 2)
 		if cli.Err != nil {
 			k.C.Inconclusive("cannot run CLI: %v", cli.Err)
